@@ -4,6 +4,7 @@
 package main
 
 import (
+	"runtime"
 	"time"
 	"strings"
 	"sort"
@@ -29,6 +30,17 @@ type ctx struct {
 	useThenExtend int
 	prop string
 	pid  int
+	sanN int
+	kept []keptResult
+	rich *bluemonday.Policy
+	disturbances, retained, retainedChanged int
+}
+
+// keptResult is a SanitizeBytes result the harness holds on to while the library is used again.
+type keptResult struct {
+	pid      int
+	in       []byte
+	out, cpy []byte
 }
 
 func b01(b bool) string {
@@ -148,8 +160,98 @@ func (c *ctx) shipped(name string) (int, *bluemonday.Policy) {
 	return c.pid, pol
 }
 
+// san sanitises one document and writes the case.  Two things happen around the call that a policy
+// (a pure function of its rule set, in the model) must not notice: every so often the library is
+// disturbed first (a richer policy is used, and a SanitizeReader call is made to fail half way through
+// its input), and one call in four goes through SanitizeBytes and its result is kept while the library
+// is used again; if the kept bytes change, the case is written again with what they hold now.
 func (c *ctx) san(pid int, pol *bluemonday.Policy, in []byte) {
+	c.sanN++
+	if c.sanN%29 == 7 {
+		c.disturb()
+	}
+	if c.sanN%4 == 1 {
+		out, status := safeSanitizeBytes(pol, in)
+		if status != "" {
+			fmt.Fprintf(c.w, "san %d %s %s\n", pid, bmx.HexField(in), status)
+			return
+		}
+		fmt.Fprintf(c.w, "san %d %s %s\n", pid, bmx.HexField(in), bmx.HexField(out))
+		c.kept = append(c.kept, keptResult{pid, in, out, append([]byte{}, out...)})
+		c.retained++
+		if len(c.kept) >= 48 {
+			c.flushKept()
+		}
+		return
+	}
 	fmt.Fprintf(c.w, "san %d %s %s\n", pid, bmx.HexField(in), safeSanitize(pol, in))
+}
+
+// flushKept looks at the results held so far: one that no longer reads as it did when it was
+// returned is reported as the output of its call.
+func (c *ctx) flushKept() {
+	for _, k := range c.kept {
+		if !bytes.Equal(k.out, k.cpy) {
+			c.retainedChanged++
+			fmt.Fprintf(c.w, "# the result of the next case changed after it was returned\n")
+			fmt.Fprintf(c.w, "san %d %s %s\n", k.pid, bmx.HexField(k.in), bmx.HexField(k.out))
+		}
+	}
+	c.kept = c.kept[:0]
+}
+
+// disturb uses the library in ways that must leave no trace on other calls.
+func (c *ctx) disturb() {
+	if c.rich == nil {
+		c.rich = bluemonday.UGCPolicy().AllowUnsafe(true).AllowElements("script", "style").AllowElements("form", "input", "iframe", "button", "font").
+			AllowAttrs("onclick", "style", "action", "type", "src", "background").Globally()
+		c.rich.AllowComments()
+		c.rich.AllowURLSchemes("javascript", "data", "vbscript", "ftp", "tel", "x-app", "http", "https", "mailto").AllowRelativeURLs(true)
+		c.rich.AllowStyles("color", "position").Globally()
+	}
+	c.disturbances++
+	doc := []byte("<script>alert(\"RICH\")</script><style>p{}</style><form action=\"http://evil.example/\" onclick=\"x()\"><input type=\"password\"><!-- c --><iframe src=\"http://evil.example/\"></iframe><p style=\"position: fixed\">to be continued")
+	// URLs the rich policy accepts and most others do not (what it learnt about them is its own business)
+	urls := "<a href=\"javascript:alert(1)\">j</a><img src=\"data:text/html,x\"><a href=\"vbscript:x\">v</a><a href=\"JaVaScRiPt:alert(1)\">J</a>"
+	for i := 0; i < 4; i++ {
+		u := strings.ReplaceAll(bmx.URLPool[(c.disturbances*4+i)%len(bmx.URLPool)], "\"", "&quot;")
+		urls += "<a href=\"" + u + "\">t</a><img src=\"" + u + "\"><q cite=\"" + u + "\">q</q>"
+	}
+	func() {
+		defer func() { recover() }()
+		_ = c.rich.Sanitize(urls)
+		_ = c.rich.SanitizeBytes(doc)
+		_ = c.rich.Sanitize(string(doc))
+		// the failing calls last: what they leave behind is what the next case meets
+		c.rich.SanitizeReaderToWriter(&failingReader{data: doc, failAt: len(doc) - 9}, &bytes.Buffer{})
+		c.rich.SanitizeReader(&failingReader{data: doc, failAt: len(doc) - 3 - c.disturbances%7})
+	}()
+}
+
+func safeSanitizeBytes(p *bluemonday.Policy, in []byte) (out []byte, status string) {
+	type res struct {
+		out    []byte
+		status string
+	}
+	done := make(chan res, 1)
+	go func() {
+		defer func() {
+			if e := recover(); e != nil {
+				done <- res{nil, "PANIC"}
+			}
+		}()
+		done <- res{p.SanitizeBytes(append([]byte{}, in...)), ""}
+	}()
+	select {
+	case r := <-done:
+		return r.out, r.status
+	case <-time.After(sanitizeDeadline):
+		timeouts++
+		if timeouts >= 3 && onTooManyTimeouts != nil {
+			defer onTooManyTimeouts()
+		}
+		return nil, "TIMEOUT"
+	}
 }
 
 func (c *ctx) stat(key string, v interface{}) { fmt.Fprintf(c.w, "# %s %v\n", key, v) }
@@ -186,8 +288,16 @@ func main() {
 		fmt.Fprintln(os.Stderr, "unknown family", *family)
 		os.Exit(2)
 	}
+	if *family != "conc" && *family != "time" {
+		// one P: whatever the library parks in a sync.Pool is handed straight back to the next call
+		runtime.GOMAXPROCS(1)
+	}
 	fn(c)
+	c.flushKept()
 	c.stat("use_then_extend_policies", c.useThenExtend)
+	c.stat("disturbances", c.disturbances)
+	c.stat("results_kept", c.retained)
+	c.stat("results_kept_changed", c.retainedChanged)
 	c.aliasCheck()
 }
 
